@@ -52,7 +52,7 @@ SCHEMA_ALT = SCHEMA_LINEAR.replace('#d2: #site/"data"/"d2"/x <= #l1', '#d2: #sit
 SCHEMAS = {'linear': SCHEMA_LINEAR, 'alt': SCHEMA_ALT}
 LEVEL_PREFIX = ['/t', '/t/l1', '/t/l1/l2', '/t/l1/l2/l3']
 DEVIATIONS = ['hmac-with-public-bits', 'unknown-signature-type', 'issuer-not-allowed', 'bad-signature', 'substituted-key', 'missing', 'nack', 'no-siginfo', 'no-keylocator',
-              'keylocator-digest', 'self-loop', 'two-cycle', 'locator-full-name', 'locator-wrong-digest']
+              'keylocator-digest', 'self-loop', 'two-cycle', 'locator-full-name', 'locator-wrong-digest', 'anchor-named-forgery', 'locator-type-variant']
 VALID_VARIANTS = ('locator-full-name',)       # not deviations at all: the chain stays valid
 KEYS = {'ec': ['ec256_0', 'ec256_1', 'ec256_2', 'ec256_3', 'ec256_4'], 'rsa': ['rsa2048_0', 'rsa2048_1', 'rsa2048_2', 'rsa2048_3'],
         'ed': ['ed25519_0', 'ed25519_1']}
@@ -101,6 +101,13 @@ class Hierarchy:
             self.store[bytes(enc.Name.to_bytes(full))] = bytes(cert)      # the network answers a full name with exactly that packet
         return full
 
+    @staticmethod
+    def type_variant(name):
+        """the certificate name with its last component (the version, a typed component) turned into a generic component with the
+        same value octets: another name, under which nothing was ever published"""
+        last = name[-1]
+        return list(name[:-1]) + [enc.Component.from_bytes(enc.Component.get_value(last), enc.Component.TYPE_GENERIC)]
+
     def keyname(self, level, types, keyset):
         t = types[level]
         pool = KEYS[t]
@@ -134,6 +141,8 @@ class Hierarchy:
             dev = deviation if (dev_level == lv and at >= 1) else None
             if dev in ('locator-full-name', 'locator-wrong-digest'):
                 signer = signer_for(issuer_key, self.full_name(names[lv - 1], certs[lv - 1], dev, lv - 1))
+            if dev == 'locator-type-variant':
+                signer = signer_for(issuer_key, self.type_variant(names[lv - 1]))
             if dev == 'issuer-not-allowed':
                 signer = signer_for(extra['other'][0], extra['other'][1])
             elif dev == 'substituted-key':
@@ -199,6 +208,12 @@ class Hierarchy:
             signer = signer_for(keys[depth - 1], self.full_name(names[depth - 1], self.final_cert(names[depth - 1], certs[depth - 1]), dev, depth - 1))
         elif dev == 'no-siginfo':
             signer = None
+        elif dev == 'locator-type-variant':
+            signer = signer_for(keys[depth - 1], self.type_variant(names[depth - 1]))
+        elif dev == 'anchor-named-forgery':
+            # a Data packet that carries the trust anchor's own name and names the anchor as its key, made with somebody else's key
+            pname = enc.Name.to_str(names[0])
+            signer = signer_for('ec256_5' if keys[0] != 'ec256_5' else 'ec256_4', names[0])
         pkt = bytes(enc.make_data(pname, enc.MetaInfo(freshness_period=1000), b'payload-' + tag.encode(), signer))
         if dev == 'bad-signature':
             pkt = pkt[:-3] + bytes([pkt[-3] ^ 0x40]) + pkt[-2:]
@@ -219,6 +234,8 @@ class Hierarchy:
         if deviation in ('missing', 'nack') and at == 0 and depth < 2:
             self.applicable = False
         if deviation in ('two-cycle',) and at >= 1 and depth < 2:
+            self.applicable = False
+        if deviation == 'anchor-named-forgery' and at != 0:
             self.applicable = False
 
 
@@ -376,6 +393,12 @@ def run_chain(case):
             abuf[:len(abuf)] = b'\xff' * len(abuf)        # the buffer stays the caller's own
         except Exception as e:  # noqa
             return [(f'C14|chain|constructor-raises:{type(e).__name__}', f'{e!r}; case {case}')], 'ctor'
+        if case['dev'] == 'locator-type-variant' and case['at'] == 0:
+            # this validator has seen (and may remember) the genuine certificates: it validates the intact packet first.  (Only when
+            # the packet itself deviates: the certificates of both hierarchies are then the same.)
+            r0 = net.validate(val, clean.packet)
+            if r0.get('v') is not True:
+                viol.append(("C14|chain|rejected-valid|before-type-variant", f"intact chain verdict {r0.get('v')}; case {case}"))
         res = net.validate(val, h.packet)
         want = case['dev'] is None or case['dev'] in VALID_VARIANTS
         if case['schema'] == 'alt' and case['dev'] is None:
